@@ -410,17 +410,22 @@ class Evaluator:
             if e.id == "namedtuple":
                 return ("builtin", "namedtuple")
             if e.id in ("ChargingNetwork", "Current", "get_evse_by_type", "dict", "print", "range", "len", "str", "list", "tuple",
-                        "enumerate", "zip", "sorted", "int", "float", "set", "reversed", "abs", "min", "max", "sum"):
+                        "enumerate", "zip", "sorted", "int", "float", "set", "reversed", "abs", "min", "max", "sum", "callable", "isinstance", "frozenset",
+                        "any", "all", "bool", "type"):
                 return ("builtin", e.id)
             if e.id in ("np", "numpy", "math"):
                 return ("mathmod",)
             if e.id in ("True", "False", "None"):
                 return {"True": True, "False": False, "None": None}[e.id]
             self.fail(e, f"unknown name {e.id}")
-        if isinstance(e, ast.List):
-            return [self.ex(x, env) for x in e.elts]
-        if isinstance(e, ast.Tuple):
-            return tuple(self.ex(x, env) for x in e.elts)
+        if isinstance(e, (ast.List, ast.Tuple)):
+            out_ = []
+            for x in e.elts:
+                if isinstance(x, ast.Starred):
+                    out_.extend(list(self.ex(x.value, env)))          # [*a, *b]
+                else:
+                    out_.append(self.ex(x, env))
+            return out_ if isinstance(e, ast.List) else tuple(out_)
         if isinstance(e, ast.Set):
             return set(self.ex(x, env) for x in e.elts)
         if isinstance(e, ast.Dict):
@@ -476,6 +481,12 @@ class Evaluator:
             l = self.ex(e.left, env)
             for op, c in zip(e.ops, e.comparators):
                 r = self.ex(c, env)
+                if isinstance(op, (ast.Is, ast.IsNot)) and (l is None or r is None):
+                    ok = (l is r) == isinstance(op, ast.Is)         # identity with None is decided for symbolic values too
+                    if not ok:
+                        return False
+                    l = r
+                    continue
                 if isinstance(l, (Sym, Cur)) or isinstance(r, (Sym, Cur)):
                     self.fail(e, "comparison of a symbolic quantity")
                 try:
@@ -569,6 +580,8 @@ class Evaluator:
                 fields = args[1].replace(",", " ").split() if isinstance(args[1], str) else list(args[1])
                 return ("ntclass", tuple(fields))
             if nm == "Current":
+                if not args and not kw:
+                    return Cur({})               # the empty current (Current.__init__ default)
                 if len(args) != 1 or kw:
                     self.fail(e, "Current(...) form not recognised")
                 a = args[0]
@@ -593,6 +606,13 @@ class Evaluator:
                 return dict(*args, **kw)
             if nm == "print":
                 return None
+            if nm == "callable" and len(args) == 1:
+                a0_ = args[0]
+                return isinstance(a0_, _Closure) or (isinstance(a0_, tuple) and bool(a0_) and a0_[0] in ("builtin", "nettype", "ntclass"))
+            if nm in ("any", "all", "bool", "frozenset") and len(args) == 1 and not any(isinstance(x, (Sym, Cur)) for x in (args[0] if isinstance(args[0], (list, tuple, set)) else [args[0]])):
+                return {"any": any, "all": all, "bool": bool, "frozenset": frozenset}[nm](args[0])
+            if nm in ("isinstance", "type"):
+                self.fail(e, f"{nm}() at construction time is outside the subset")
             simple = {"range": range, "len": len, "str": str, "list": list, "tuple": tuple, "enumerate": enumerate, "zip": zip,
                       "sorted": sorted, "int": int, "float": float, "set": set, "reversed": reversed, "abs": abs, "min": min, "max": max,
                       "sum": sum}
